@@ -549,8 +549,10 @@ Definition fx_lstep := lstep fx_plugins_chk fx_blocked fx_env_step.
 (** The schedule the model commits to: a handler runs as soon as its request is complete and it
     is not blocked (two passes: a closing [shutdown] later in the list unblocks a [wait] earlier
     in it).  [socket_never_wedged] is about all schedules. *)
+Definition is_complete (c : N * conn_phase) : bool :=
+  match snd c with PComplete _ => true | _ => false end.
 Definition handle_ready (st : lts_state fx_state) : lts_state fx_state :=
-  fold_left fx_lstep (map (fun c => EHandle (fst c)) (l_conns st)) st.
+  fold_left fx_lstep (map (fun c => EHandle (fst c)) (filter is_complete (l_conns st))) st.
 
 (** what the client sees: reply [(L (N 0) (B data))]; connect refused [(L (N 1))]; nothing
     within the bounded wait [(L (N 3))]; nothing yet [(L (N 4))]; no such connection [(L (N 5))] *)
